@@ -43,3 +43,13 @@ Example C18_example_accept : judge_tlimit [2; 3; 2;  0; 0; 0; 1; 1; 0; 0; 0; 0; 
 Proof. vm_compute. reflexivity. Qed.
 Example C18_example_leak : judge_tlimit [2; 3; 1;  2; 1; 0; 0; 1; 0; 0; 348; 0] = 63.
 Proof. vm_compute. reflexivity. Qed.
+
+(* ---------- the judge accepts EXACTLY the records that satisfy its specification (JudgeComplete3.v): completeness besides soundness,
+   a record of a correct answer is never rejected ---------- *)
+From Cmr Require JudgeComplete3.
+Theorem C18_judge_tlimit_accepts_exactly_the_specification :
+    forall (rec : list Z) (sub N : Z) (runs : list TimeoutModel.trun) (rest : list Z),
+    TimeoutProofs.tlimit_input rec = Some (sub, N, runs, rest) ->
+    TimeoutModel.judge_tlimit rec = 0%Z <-> JudgeComplete3.tlimit_spec N runs.
+Proof. exact JudgeComplete3.judge_tlimit_iff. Qed.
+Print Assumptions C18_judge_tlimit_accepts_exactly_the_specification.
